@@ -50,7 +50,10 @@ from unified_planning.plans import (
     ActionInstance,
 )
 from unified_planning.model.problem_kind import FEATURES
-from unified_planning.engines.compilers.utils import remove_fluents
+from unified_planning.engines.compilers.utils import (
+    remove_fluents,
+    updated_minimize_action_costs,
+)
 from unified_planning.engines.sequential_simulator import UPSequentialSimulator
 
 
@@ -475,6 +478,15 @@ class TimedToSequential(engines.engine.Engine, CompilerMixin):
                             raise UPUnreachableCodeError
             new_to_old[new_action] = action
             new_problem.add_action(new_action)
+
+        new_problem.clear_quality_metrics()
+        for qm in problem.quality_metrics:
+            if qm.is_minimize_action_costs():
+                new_problem.add_quality_metric(
+                    updated_minimize_action_costs(qm, new_to_old, env)
+                )
+            else:
+                new_problem.add_quality_metric(qm)
 
         # Fluents used only inside a duration expression (e.g. a fluent feeding a durative
         # action's fixed duration) become unreferenced once the duration is dropped by the
